@@ -11,6 +11,12 @@ shuffled `os.walk`) and compared with
 under the hypothesis `hyp` of theorem `C15_created_partial`.  `casefold`, `fnmatch` and
 `re.search` are oracle tables computed here for exactly the strings the model/spec ask for
 (`c15.queries`).  `utils.list_files` is tied to the model's `listFiles` separately.
+
+Empty files (since /repo d89a92e `_set_files` drops them itself, by the size it knows and
+`os.path.exists` of the path as listed) are judged like everything else: from every cwd, under every
+spelling, with and without unrelated same-named files below the cwd; `empty_family()` is a fixed
+set of such trees that runs on every seed.  The `files` setter (outside C15's statement) is tied
+to the model `filesSetter` as correspondence only (`c15.files`).
 """
 import fnmatch
 import hashlib
@@ -28,6 +34,9 @@ RULE = ('groups = (tree, pattern settings); trees: <= 12 files, nesting <= 3, hi
         'dotted root names; each group at 2 tmpfs locations x ~25 (cwd, spelling) variants (parent / '
         'tree / child / grandchild / unrelated cwd; T, ./T, T/, T//, absolute, //absolute, ../P/T, '
         'abs with .., ., ./, .//., .., ../, ../., ./.., ../../T, child/.., ../..) x shuffled os.walk order; '
+        'a fixed family of trees with empty files (top level, nested, in hidden directories, the only file, '
+        'all files, matched by an include pattern, with unrelated same-named empty / non-empty files and '
+        'directories below the cwd) under all variants; '
         'non-trivial = tree with >= 2 files addressed other than by its bare name from its parent; '
         'distinct = distinct (tree, settings, location, cwd, spelling)')
 
@@ -261,7 +270,10 @@ def build_fs(root, group):
     fs.append([_comps(U), None])
     for d in group.get('decoy', []):
         p = os.path.join(U, tree['name'], *d['rel'])
-        _write(p, d['size'], 'decoy')
+        if d['size'] is None:                 # an unrelated *directory* of that name
+            os.makedirs(p, exist_ok=True)
+        else:
+            _write(p, d['size'], 'decoy')
         fs.append([_comps(p), d['size']])
     return locs, U, fs
 
@@ -431,20 +443,8 @@ def _diff(case, observed):
 
 
 def _is_model(case, observed):
-    """observed is what the model of the recorded defects computes (as the code is now, or with the
-    empty-file probe repaired on its own)"""
-    return observed == case['model'] or observed == case.get('model_pf')
-
-
-def m_empty_probe(case, observed, finding):
-    """D15a: the only deviation is on files whose emptiness probe (cwd/name/rel) answers wrongly"""
-    if observed != case['model'] or case['spell_class'] not in ('abs', 'dot', 'rel'):
-        return False
-    if observed.get('name', case['spec'].get('name')) != case['spec'].get('name', observed.get('name')):
-        return False
-    d = {p for p, _ in _diff(case, observed)}
-    wrong = {tuple(p) for p in case['probeWrong']}
-    return bool(d) and d <= wrong
+    """observed is what the model of the code as it is (with the recorded defects) computes"""
+    return observed == case['model']
 
 
 def m_dotdot_patterns(case, observed, finding):
@@ -460,30 +460,38 @@ def m_dotdot_patterns(case, observed, finding):
     return bool(d) and any(verdict(st, '/'.join(('..',) + p)) != verdict(st, '/'.join((name,) + p)) for p in d)
 
 
+def _hidden(rel):
+    return any(c not in ('.', '..', '') and c.startswith('.') for c in rel)
+
+
 def m_common_prefix(case, observed, finding):
-    """D15c: all listed files share their first component (or there is one file in a directory)
-    and the deviation is on a file that is hidden below that shared part or hit by a pattern"""
+    """D15c: the files handed to filter_files (the non-empty listed ones) share their first
+    component (or there is one such file in a directory), and every deviating file is hidden
+    within that shared part or the pattern set is not empty"""
     if not _is_model(case, observed) or case['hypParts']['prefixOK'] or case['spell_class'] == 'name-lost':
         return False
+    tree = case['group']['tree']
+    ne = [tuple(f['rel']) for f in tree['files'] if f['size'] != 0]
+    if not ne:
+        return False
+    cp = os.path.commonprefix(ne)             # component-wise on tuples
     d = {p for p, _ in _diff(case, observed)}
-    # with the spelling '..' the probe path is '../rel', which does reach the tree's own file
-    wrong = set() if case['spell_class'] == 'dotdot' else {tuple(p) for p in case['probeWrong']}
-    return bool(d - wrong)
+    has_pat = any(case['group']['st'].values())
+    return bool(d) and all(p[:len(cp)] == tuple(cp) and (has_pat or _hidden(cp)) for p in d)
 
 
 def m_name_lost(case, observed, finding):
     """D15d: relative spelling that normalises to '.', '..', '../..' without being '.' or '..'
     (sub/.., ../.., ../sub/..): the torrent is named '' or '..'"""
     # the class of spellings is itself the narrow part; within it the torrent-relative paths are
-    # '../rel' or '<cwd name>/rel' under the name '..' / '', which also misleads patterns and the
-    # empty-file probe — all of it is what the model of the recorded defect computes
+    # '../rel' or '<cwd name>/rel' under the name '..' / '', which also misleads patterns — all of
+    # it is what the model of the recorded defect computes
     return _is_model(case, observed) and case['spell_class'] == 'name-lost'
 
 
 MATCHERS = {
     'c15_name_lost': m_name_lost,
     'c15_dotdot_patterns': m_dotdot_patterns,
-    'c15_empty_probe_cwd': m_empty_probe,
     'c15_common_prefix': m_common_prefix,
 }
 
@@ -552,11 +560,9 @@ def evaluate(ctx, drv, groups, thorough=False):
             ctx.dist['hyp' if hyp else 'outside-hyp'] += 1
             if any(g['st'].values()):
                 ctx.dist['with-patterns'] += 1
-            probe_wrong = rep.get('probeWrong', [])
             case = {'group': {k: g[k] for k in ('tree', 'st', 'decoy', 'shape')}, 'loc': r['loc'],
                     'variant': v, 'cwd': r['cwd'], 'spelling': r['spelling'], 'spell_class': sc,
-                    'hypParts': rep['hypParts'], 'model': M, 'model_pf': rep.get('modelProbeFixed'),
-                    'spec': S, 'probeWrong': probe_wrong}
+                    'hypParts': rep['hypParts'], 'model': M, 'spec': S}
             ctx.sample({'case': {k: case[k] for k in ('group', 'cwd', 'spelling')}, 'spec': S, 'impl': I, 'hyp': hyp})
             if hyp and not rep['modelEqSpec']:
                 ctx.machinery_error('model != spec under hyp although C15_created_partial is proved', case)
@@ -604,6 +610,160 @@ def evaluate(ctx, drv, groups, thorough=False):
 
 
 # ------------------------------------------------------------------------------------------
+
+def _F(rel, size):
+    return {'rel': rel.split('/') if rel else [], 'size': size}
+
+
+NOPAT = {'exg': [], 'exr': [], 'ing': [], 'inr': []}
+
+
+def empty_family():
+    """fixed trees with empty files; every one runs under all (cwd, spelling) variants at both
+    locations on every seed.  (tree name, files, settings, decoys below the unrelated cwd)"""
+    E = []
+
+    def add(tag, name, files, st=None, decoy=()):
+        E.append((tag, name, [_F(r, n) for r, n in files], dict(NOPAT, **(st or {})),
+                  [{'rel': r.split('/'), 'size': n} for r, n in decoy]))
+    top = [('a', 3), ('b', 2), ('e', 0)]
+    add('top', 'T', top)
+    add('top-first-in-order', 'T', [('0', 0), ('a', 3), ('b', 2)])
+    add('nested', 'T', [('a', 3), ('sub/e', 0), ('sub/b', 1), ('sub/x/y', 0), ('sub/x/z', 4)])
+    add('nested-only-empties-in-dir', 'T', [('a', 3), ('b', 1), ('sub/e', 0), ('sub/x/f', 0)])
+    add('in-hidden-dir', 'T', [('a', 3), ('b', 1), ('.hid/e', 0), ('.hid/x', 2), ('sub/.h/e', 0), ('sub/c', 1)])
+    add('hidden-empty-file', 'T', [('a', 3), ('b', 1), ('.e', 0), ('sub/.e', 0), ('sub/c', 1)])
+    add('only-file-in-dir', 'T', [('e', 0)])
+    add('only-file-nested', 'T', [('sub/x/e', 0)])
+    add('single-file-tree', 'e.bin', [('', 0)])
+    add('all-empty', 'T', [('e', 0), ('f', 0), ('sub/g', 0), ('sub/x/h', 0)])
+    add('hidden-root', '.T', [('a', 3), ('b', 1), ('e', 0), ('sub/e', 0)])
+    add('include-glob-matches-empty', 'T', top, {'ing': ['T/e']})
+    add('include-regex-matches-empty', 'T', top, {'inr': ['e$'], 'exg': ['*/b']})
+    add('include-all-exclude-all', 'T', [('a', 3), ('b', 2), ('e', 0), ('sub/e', 0), ('sub/c', 1)],
+        {'exg': ['*'], 'ing': ['*e', 'T/a']})
+    add('exclude-matches-empty', 'T', top, {'exr': ['^T/e$']})
+    add('case-variants', 'T', [('E', 0), ('e', 2), ('a/E.txt', 0), ('A/e.txt', 1)], {'exg': ['*/e.TXT']})
+    # unrelated same-named files below the cwd (U/T/…): empty where the tree's is not, non-empty
+    # where the tree's is empty, a directory of that name, nothing
+    add('decoy-empty-for-nonempty', 'T', top, decoy=[('a', 0)])
+    add('decoy-nonempty-for-empty', 'T', top, decoy=[('e', 5)])
+    add('decoy-both', 'T', [('a', 3), ('b', 2), ('e', 0), ('sub/e', 0), ('sub/c', 1)],
+        decoy=[('a', 0), ('e', 5), ('sub/c', 0), ('sub/e', 0)])
+    add('decoy-directories', 'T', top, decoy=[('a', None), ('e', None)])
+    add('decoy-with-patterns', 'T', top, {'exg': ['T/b'], 'ing': ['T/e']}, decoy=[('a', 0), ('b', 0), ('e', 1)])
+    # the reach of D15c since d89a92e: the *non-empty* files share a directory / are one file
+    add('d15c-one-nonempty-beside-empty', 'T', [('a.txt', 3), ('e', 0)], {'exg': ['T/a.txt']})
+    add('d15c-nonempty-share-hidden-dir', 'T', [('e', 0), ('.hid/a', 1), ('.hid/b', 1)])
+    add('d15c-nonempty-share-dir-no-pattern', 'T', [('e', 0), ('sub/a', 1), ('sub/b', 1)])
+    rng = random.Random(15)
+    gs = []
+    for i, (tag, name, files, st, decoy) in enumerate(E):
+        tree = {'name': name, 'files': files, 'dirs': []}
+        gs.append({'gid': f'e{i}', 'shape': 'empty:' + tag, 'tree': tree, 'st': st, 'decoy': decoy,
+                   'variants': variants_for(tree, rng), 'locs': [0, 1]})
+    return gs
+
+
+# ------------------------------------------------------------------------------------------
+# `Torrent.files = [File(name/rel, size), …]` (outside C15's statement): correspondence with the
+# model `filesSetter` only — what is probed is the given size and os.path.exists of the
+# torrent-relative path below the cwd
+
+def _run_files_setter(cases):
+    torf = common.import_torf()
+    wd = common.worker_dir()
+    home = os.getcwd()
+    out = []
+    try:
+        for c in cases:
+            root = os.path.join(wd, f"fs{c['id']}")
+            shutil.rmtree(root, ignore_errors=True)
+            fs = []
+            for cwdname, entries in c['world'].items():
+                base = os.path.join(root, cwdname)
+                os.makedirs(base, exist_ok=True)
+                fs.append([_comps(base), None])
+                for rel, size in entries:
+                    p = os.path.join(base, rel)
+                    if size is None:
+                        os.makedirs(p, exist_ok=True)
+                    else:
+                        _write(p, size, 'w')
+                    fs.append([_comps(p), size])
+            res = []
+            for cwdname in c['world']:
+                cwd = os.path.join(root, cwdname)
+                obs = {}
+                try:
+                    os.chdir(cwd)
+                    t = torf.Torrent()
+                    t.files = [torf.File(p, size=n) for p, n in c['items']]
+                    info = t.metainfo['info']
+                    if 'files' in info:
+                        obs = {'kind': 'multi', 'name': info.get('name'),
+                               'files': [[list(fi['path']), fi['length']] for fi in info['files']]}
+                    elif 'length' in info:
+                        obs = {'kind': 'single', 'name': info.get('name'), 'size': info['length']}
+                    else:
+                        obs = {'kind': 'empty'}
+                except BaseException as e:  # noqa
+                    obs = {'kind': 'error', 'err': type(e).__name__}
+                finally:
+                    os.chdir(home)
+                res.append({'cwd': cwd, 'obs': obs})
+            out.append({'case': c, 'fs': fs, 'results': res})
+            shutil.rmtree(root, ignore_errors=True)
+    finally:
+        os.chdir(home)
+    return out
+
+
+def files_setter_cases(rng, n):
+    cases = []
+    fixed = [
+        ([('T/a', 3), ('T/e', 0), ('T/zz', 0)],
+         {'P': [('T/a', 3), ('T/e', 0)], 'Q': [], 'U': [('T/a', 0), ('T/e', 5)], 'D': [('T/e', None), ('T/zz/x', 1)]}),
+        ([('T/e', 0)], {'P': [('T/e', 0)], 'Q': []}),
+        ([('e', 0)], {'P': [('e', 0)], 'Q': []}),
+        ([('a', 3)], {'P': [('a', 0)], 'Q': []}),
+        ([('T/e', 0), ('T/f', 0)], {'P': [('T/e', 0)], 'Q': [], 'R': [('T/e', 0), ('T/f', 2)]}),
+        ([('T/sub/a', 1), ('T/sub/e', 0), ('T/.h/x', 2)], {'P': [('T/sub/e', 0)], 'Q': [('T/sub', 0)]}),
+        ([('A/x', 1), ('B/y', 2)], {'P': []}),
+    ]
+    for items, world in fixed:
+        cases.append({'items': items, 'world': world})
+    names = ['a', 'b', 'e', 'sub/c', 'sub/e', '.h/x', 'sub/x/y']
+    for _ in range(n):
+        k = rng.randint(1, 5)
+        items = [('T/' + r, rng.choice([0, 0, 1, 4])) for r in rng.sample(names, k)]
+        world = {}
+        for cw in ('P', 'Q', 'R'):
+            ent = []
+            for p, _n in items:
+                x = rng.random()
+                if x < 0.35:
+                    ent.append((p, rng.choice([0, 0, 3])))
+                elif x < 0.45:
+                    ent.append((p, None))
+            world[cw] = ent
+        cases.append({'items': items, 'world': world})
+    for i, c in enumerate(cases):
+        c['id'] = i
+    return cases
+
+
+def evaluate_files_setter(ctx, drv, cases):
+    results = common.pmap(_run_files_setter, common.split(cases, common.NPROC * 2))
+    flat = [(gr['case'], gr['fs'], r) for chunk in results for gr in chunk for r in gr['results']]
+    reqs = [{'op': 'c15.files', 'cwd': _comps(r['cwd']), 'fs': fs,
+             'items': [{'path': p.split('/'), 'size': n} for p, n in c['items']]} for c, fs, r in flat]
+    for (c, fs, r), rep in zip(flat, drv.run(reqs)):
+        ctx.dist['files-setter'] += 1
+        if r['obs'] != rep['model']:
+            ctx.corr_break('c15.files', {'items': c['items'], 'world': c['world'], 'cwd': r['cwd']},
+                           rep['model'], r['obs'])
+
 
 def witness_groups(ctx):
     gs = []
@@ -654,8 +814,10 @@ def run(ctx, drv):
         evaluate(ctx, drv, [g], thorough=False)
         if ctx.dist.get('known-finding:' + fid, 0) == before:
             ctx.not_reproduced.append(fid)
-    # 2. corpus, 3. generated groups
-    evaluate(ctx, drv, corpus_groups() + gen_groups(ctx), thorough=ctx.thorough)
+    # 2. corpus, 3. the fixed family of trees with empty files, 4. generated groups
+    evaluate(ctx, drv, corpus_groups() + empty_family() + gen_groups(ctx), thorough=ctx.thorough)
+    # 5. the `files` setter against its model (correspondence only)
+    evaluate_files_setter(ctx, drv, files_setter_cases(ctx.rng, ctx.n(60, 600)))
     ctx.exhaustive = False
 
 
